@@ -7,7 +7,7 @@
    precondition is evaluated when it lands; a PUT whose client gave up on it (timeout -> AmbiguousCommitError -> lock
    released) and that lands LATER is Model/FlipFault.v's XFlipErr placed later (C08_delayed_landing_nonvacuous).
    commit()'s fallback on an UNUSABLE pointer (absent / garbage / dangling: `if current is None: current = self.refresh()`)
-   is Model/PtrFallback.v: what holds there unconditionally, what holds only when the recovery scan is right, and the
+   is Model/PtrFallback.v: what holds when damaged pointer objects are distinguishable by the store, what holds only when the recovery scan is right too, and the
    counterexample when it is not, are the three C08_fallback_* statements below. *)
 From Coq Require Import ZArith List Bool Arith.
 Require Import DS.Model.CommitBase DS.Gen.GenCommit DS.Model.Commit DS.Proofs.CommitGenProofs DS.Proofs.CommitProofs.
@@ -91,10 +91,12 @@ Print Assumptions C08_failed_flip_reaction_regenerated.
 
 (* ... every pointer replacement -- including those whose response was lost -- replaced exactly the version its committer
    validated, the table is the serial application of the replacements, every acknowledged commit is among them, once.
-   (xrun_p true: the machine in which no pointer write lands between a refused-although-applied write and its read-back, see
-   C08_acknowledged_iff_applied_* below; for schedules without such writes -- all of the failing-write alphabet -- it is the
-   unrestricted machine: prompt_irrelevant_without_pending.) *)
-Theorem C08_faulted_no_lost_update : forall c atomic m0 kind mr xs, cas c = true ->
+   PARTIAL: stated over xrun_p true only -- the exact extra hypothesis is that no pointer write lands between a
+   refused-although-applied write (XFlipResent) and its read-back (C08_acknowledged_iff_applied_* below).  Without it the
+   statement is false: in the unrestricted machine superseded_witness makes the committer retry an operation the store has
+   applied, and its second commit breaks NoDup (the operation is in the table twice; x_misreported = [0]).  For schedules
+   without XFlipResent -- all of the failing-write alphabet -- the two machines coincide: prompt_irrelevant_without_pending. *)
+Theorem C08_faulted_no_lost_update_partial : forall c atomic m0 kind mr xs, cas c = true ->
   let w := xw (xrun_p true c atomic (xinit (init_world m0 kind mr)) xs) in
   Forall (fun p => fst p = snd p) (w_repl w)
   /\ m_ops (file w (w_ptr w)) = m_ops m0 ++ map snd (w_hist w)
@@ -102,7 +104,7 @@ Theorem C08_faulted_no_lost_update : forall c atomic m0 kind mr xs, cas c = true
   /\ (forall a, a_pc (w_actors w a) = PDone Success -> In a (map snd (w_hist w)))
   /\ chain_ok (w_files w) 0%nat (w_hist w).
 Proof. exact faulted_no_lost_update. Qed.
-Print Assumptions C08_faulted_no_lost_update.
+Print Assumptions C08_faulted_no_lost_update_partial.
 
 (* ... and a committer whose pointer write raised is NEVER acknowledged, whatever the pointer says afterwards (another
    committer may have landed a version with the same number meanwhile); once the exception has left commit() the
@@ -149,29 +151,56 @@ Print Assumptions C08_acknowledged_iff_applied_partial.
 (* ---- commit()'s FALLBACK (Model/PtrFallback.v): the pointer object read with its ETag is unusable (absent / bytes that name
    nothing / the name of a missing file), `current = self.refresh()` re-reads the pointer and recovers the latest version
    by scanning; pointer damage (RDamage) may happen anywhere in the schedule, any number of times, any lock.
-   UNCONDITIONALLY -- whatever the scans return: every applied pointer write replaced exactly the pointer OBJECT whose ETag
-   its committer had read under the lock; if that object named a version, that is the version validated, read from the
-   very bytes that came with the ETag; if it was unusable, the version validated is the one recovered by the scan (a
-   committer that found the pointer repaired when refresh() re-read it is refused by the store: it holds a dead ETag). *)
-Theorem C08_fallback_replaced_what_it_read : forall c exact m0 kind mr xs, cas c = true ->
-  Forall entry_ok (r_repl (rrun c exact (rinit (init_world m0 kind mr)) xs)).
-Proof. exact fallback_replaced_what_it_read. Qed.
-Print Assumptions C08_fallback_replaced_what_it_read.
+   The store compares only what it can SEE of an unusable object (rstep_s idn): "no object" (the committer's write is
+   create-if-absent: IAbsent, ONE identity for every absence) or the ETag of garbled content (S3: its MD5 -- IGarbled b, one
+   identity per content).  idn g = what the g-th damage event leaves behind.
+   The statement: every applied pointer write replaced exactly the pointer object STATE whose ETag its committer had read
+   under the lock; if that object named a version, that is the version validated, read from the very bytes that came with the
+   ETag; if it was unusable, the version validated is the one recovered by the scan (a committer that found the pointer
+   repaired when refresh() re-read it is refused by the store: it holds a dead ETag).
+   FULL (any idn) it is FALSE, for an absent pointer and for garbled ones: the pointer deleted twice -- or garbled twice with
+   the same bytes -- within one attempt lets a conditional write keyed to the first damage land on the second, on top of a
+   commit acknowledged in between (double_damage_witness; source: hint_etag = None -> If-None-Match: *; S3 ETag = content
+   MD5.  Reproduced on the real code; it needs an agent OUTSIDE the library destroying the pointer twice the same way
+   within one commit attempt -- no pause, lease lapse, takeover or delayed write of the property's schedules does that). *)
+Definition C08_fallback_replaced_what_it_read_full : Prop := forall idn, fallback_replaced_for idn.
+Theorem C08_fallback_replaced_what_it_read_refuted :
+  ~ fallback_replaced_for (fun _ => IAbsent)            (* PAbsent: deleted twice *)
+  /\ ~ fallback_replaced_for (fun _ => IGarbled 0)      (* PGarbled: the same garbage twice *)
+  /\ ~ C08_fallback_replaced_what_it_read_full.
+Proof. exact (conj fallback_replaced_absent_refuted (conj fallback_replaced_same_garbage_refuted fallback_replaced_full_refuted)). Qed.
+Print Assumptions C08_fallback_replaced_what_it_read_refuted.
+
+(* ... and it HOLDS under the exact extra hypothesis that no two damage events leave the same store-visible object (at most
+   one of them leaves the pointer absent, garbled contents pairwise different) -- whatever the scans return *)
+Theorem C08_fallback_replaced_what_it_read_partial : forall idn, (forall g g', idn g = idn g' -> g = g') ->
+  forall c exact m0 kind mr xs, cas c = true ->
+  Forall entry_ok (r_repl (rrun_s idn c exact (rinit (init_world m0 kind mr)) xs)).
+Proof. exact fallback_replaced_distinguishable. Qed.
+Print Assumptions C08_fallback_replaced_what_it_read_partial.
 
 (* "No acknowledged commit is overwritten" on that path needs MORE than the conditional write can give: the full statement
-   (for scans that may return any metadata file) is FALSE -- a scan that returns another committer's unpublished file of
-   the same version number loses an acknowledged commit (witness: lost_update_witness, needs a lock that does not exclude
-   AND a pointer damaged after that commit) ... *)
-Definition C08_fallback_no_lost_update_full : Prop := forall exact, fallback_no_lost_update_for exact.
-Theorem C08_fallback_no_lost_update_refuted : ~ C08_fallback_no_lost_update_full.
-Proof. exact fallback_no_lost_update_full_refuted. Qed.
+   (any store-visible identities, scans that may return any metadata file) is FALSE twice over -- a scan that returns another
+   committer's unpublished file of the same version number loses an acknowledged commit (lost_update_witness: needs a lock
+   that does not exclude AND a pointer damaged after that commit), and with exact scans the double damage above does ... *)
+Definition C08_fallback_no_lost_update_full : Prop := forall idn exact, fallback_no_lost_update_s idn exact.
+Theorem C08_fallback_no_lost_update_refuted :
+  ~ fallback_no_lost_update_s (fun g => IGarbled g) false     (* distinguishable damage, inexact scan *)
+  /\ ~ fallback_no_lost_update_s (fun _ => IAbsent) true      (* exact scans, pointer deleted twice *)
+  /\ ~ C08_fallback_no_lost_update_full.
+Proof.
+  exact (conj fallback_no_lost_update_s_inexact_refuted
+          (conj fallback_no_lost_update_s_double_damage_refuted fallback_no_lost_update_s_full_refuted)).
+Qed.
 Print Assumptions C08_fallback_no_lost_update_refuted.
 
-(* ... and it HOLDS, for every schedule with damage events and fallbacks and any lock, under the exact extra hypothesis
-   that every recovery scan returns the version named by the last successful pointer write (`exact = true`; that the
-   library's scan does so is the subject of C10, not of the conditional write) *)
-Theorem C08_fallback_no_lost_update_partial : fallback_no_lost_update_for true.
-Proof. exact fallback_no_lost_update_exact. Qed.
+(* ... and it HOLDS, for every schedule with damage events and fallbacks and any lock, under the two exact extra hypotheses:
+   every recovery scan returns the version named by the last successful pointer write (`exact = true`; that the library's
+   scan does so is the subject of C10 -- the residual is the same event as C10_leftover_surfaces: an unpublished leftover
+   surfacing through the scan), and no two damage events leave the same store-visible object *)
+Theorem C08_fallback_no_lost_update_partial : forall idn, (forall g g', idn g = idn g' -> g = g') ->
+  fallback_no_lost_update_s idn true.
+Proof. exact fallback_no_lost_update_s_exact. Qed.
 Print Assumptions C08_fallback_no_lost_update_partial.
 
 (* the fallback attempt is the regenerated skeleton of MetadataManager.commit with its data-dependent refresh() taken *)
@@ -301,7 +330,15 @@ Example C08_fallback_nonvacuous :
      (exists i, rrun_strict c true (rinit ex_init)
                   [ rx 0 (EBegin 0); rx 0 (ELockTry true); rx 0 (EValidate 0 true); rx 0 (EMetaW 100); RDamage; RBegin 1 1 ]%nat 0 = inr i)
   /\ (exists X, rrun_strict c false (rinit ex_init) lost_update_witness 0 = inl X /\ r_inexact X = 2%nat
-                /\ a_pc (w_actors (rw X) 1%nat) = PDone Success /\ m_ops (file (rw X) (w_ptr (rw X))) = [0; 2]%nat).
+                /\ a_pc (w_actors (rw X) 1%nat) = PDone Success /\ m_ops (file (rw X) (w_ptr (rw X))) = [0; 2]%nat)
+  /\ (* the double damage: accepted step by step by the store that sees only "absent", exact scans; both acknowledged, actor
+        1's operation gone, actor 0's write replaced incarnation 1 holding incarnation 0's identity ... *)
+     (exists X, rrun_s_strict (fun _ => IAbsent) c true (rinit ex_init) double_damage_witness 0 = inl X /\ r_inexact X = 0%nat
+                /\ a_pc (w_actors (rw X) 0%nat) = PDone Success /\ a_pc (w_actors (rw X) 1%nat) = PDone Success
+                /\ m_ops (file (rw X) (w_ptr (rw X))) = [0]%nat
+                /\ map (fun e => (re_actor e, re_replaced e, re_held e)) (r_repl X) = [(1, PBad 0, PBad 0); (0, PBad 1, PBad 0)]%nat)
+  /\ (* ... and refused by the store that can tell the two damages apart (the hypothesis of the _partial theorems) *)
+     (exists i, rrun_s_strict (fun g => IGarbled g) c true (rinit ex_init) double_damage_witness 0 = inr i).
 Proof. vm_compute. repeat split; eexists; repeat split. Qed.
 
 (* Non-vacuity of the refused-although-applied theorems (lock that excludes nobody; both actors validated version 0).
